@@ -136,9 +136,9 @@ def diffRecords (s : Sys) (o : Nat) (c : Option H) : Out :=
     | none => .err .commitNotFound
     | some k => .records ((s.rowsOf o).drop (k + 1))
 
-/-- The server's `event_patch`: optional rewind, checked patch, and on conflict
-the rewound records are applied again. -/
-def eventPatch (s : Sys) (o : Nat) (c : Option H) (cp : CommitProof) (rs : List Rec) : Sys × Out :=
+/-- The body of the server's `event_patch` after its guard: optional rewind, checked patch,
+and on conflict the rewound records are applied again. -/
+def eventPatchCore (s : Sys) (o : Nat) (c : Option H) (cp : CommitProof) (rs : List Rec) : Sys × Out :=
   match c with
   | none => patchChecked s o cp rs
   | some c =>
@@ -148,6 +148,32 @@ def eventPatch (s : Sys) (o : Nat) (c : Option H) (cp : CommitProof) (rs : List 
        | (s2, .conflict h k) => (applyRecords s2 o removed, .conflict h k)
        | r => r)
     | (s1, out) => (s1, out)
+
+/-- every record the rewind would remove is carried by the patch (compared by commit) -/
+def coveredBy (removed rs : List Rec) : Bool :=
+  removed.all (fun r => rs.any (fun x => x.commit = r.commit))
+
+/-- The guard of `event_patch` (`event_diff` from the rewind target, then the test): `some`
+answer when the request is refused before anything is touched. -/
+def staleRewind (s : Sys) (o : Nat) (c : H) (rs : List Rec) : Option (Sys × Out) :=
+  match diffRecords s o (some c) with
+  | .records removed =>
+    (match head (s.trees o) with
+     | none => some (s, .err .noRootCommit)
+     | some h => if coveredBy removed rs then none else some (s, .conflict h none))
+  | .err e => some (s, .err e)
+  | _ => none
+
+/-- The server's `event_patch`: a rewind that would remove records the patch does not carry
+(another device's patch landed after this one was computed) is refused as a conflict and
+nothing changes; otherwise rewind, checked patch, rollback on conflict. -/
+def eventPatch (s : Sys) (o : Nat) (c : Option H) (cp : CommitProof) (rs : List Rec) : Sys × Out :=
+  match c with
+  | none => eventPatchCore s o none cp rs
+  | some c' =>
+    match staleRewind s o c' rs with
+    | some r => r
+    | none => eventPatchCore s o (some c') cp rs
 
 inductive Op where
   | apply (o : Nat) (time : Nat) (evs : List Bytes)
